@@ -1,7 +1,393 @@
 /-
-  Helper lemmas (RunF).
+  Helper lemmas (RunF): the file-system algebra behind C04a — names and inodes, `look`, the effect of
+  `mkdirs` / `openCreate` / `setData` on a well-formed tree, and the local-change relation `Loc`.
 -/
 import TB.Spec.ExportSpec
+import TB.Lemmas.RunB
+import TB.Lemmas.RunDBase
 namespace TB.RunF
+open TB
+
+/-! ### well-formed trees (same body as `TB.FsWF` in `TB.Props.C04a`) -/
+
+def WF (fs : Fs) : Prop :=
+  (∀ p i, (p, i) ∈ fs.files → i < fs.next) ∧
+  (fs.files.map (·.1)).Nodup ∧
+  (∀ p i, (p, i) ∈ fs.files → fs.isDir p = false) ∧
+  (∀ p i, (p, i) ∈ fs.files → ∀ q ∈ Fs.properPrefixes p, fs.isDir q = true)
+
+/-! ### names and inodes -/
+
+theorem inoOf_mem {fs : Fs} {p : Path} {i : Nat} (h : fs.inoOf p = some i) : (p, i) ∈ fs.files := by
+  unfold Fs.inoOf at h
+  cases hf : fs.files.find? (fun e => e.1 == p) with
+  | none => rw [hf] at h; cases h
+  | some e =>
+    rw [hf] at h
+    have h1 := List.find?_some hf
+    have h2 := List.mem_of_find?_eq_some hf
+    obtain ⟨a, b⟩ := e
+    simp at h1 h
+    subst h1; subst h; exact h2
+
+theorem inoOf_none {fs : Fs} {p : Path} (h : fs.inoOf p = none) : ∀ e ∈ fs.files, e.1 ≠ p := by
+  unfold Fs.inoOf at h
+  simp only [Option.map_eq_none_iff, List.find?_eq_none] at h
+  intro e he hp
+  exact h e he (by simp [hp])
+
+theorem inoOf_lt {fs : Fs} (hwf : WF fs) {p : Path} {i : Nat} (h : fs.inoOf p = some i) : i < fs.next :=
+  hwf.1 p i (inoOf_mem h)
+
+theorem inoOf_notDir {fs : Fs} (hwf : WF fs) {p : Path} {i : Nat} (h : fs.inoOf p = some i) : fs.isDir p = false :=
+  hwf.2.2.1 p i (inoOf_mem h)
+
+/-! ### `look` -/
+
+theorem look_file {fs : Fs} {p : Path} {i : Nat} (h : fs.look p = .file i) :
+    (Fs.properPrefixes p).any (fun q => (fs.inoOf q).isSome) = false ∧ fs.isDir p = false ∧ fs.inoOf p = some i := by
+  unfold Fs.look at h
+  split at h
+  · cases h
+  · rename_i h1
+    split at h
+    · cases h
+    · rename_i h2
+      split at h
+      · rename_i j hj
+        cases h
+        exact ⟨by simpa using h1, by simpa using h2, hj⟩
+      · split at h <;> cases h
+
+theorem look_file_of {fs : Fs} {p : Path} {i : Nat}
+    (h1 : (Fs.properPrefixes p).any (fun q => (fs.inoOf q).isSome) = false) (h2 : fs.isDir p = false)
+    (h3 : fs.inoOf p = some i) : fs.look p = .file i := by
+  unfold Fs.look
+  rw [if_neg (by rw [h1]; exact Bool.false_ne_true), if_neg (by rw [h2]; exact Bool.false_ne_true), h3]
+
+theorem look_notFound {fs : Fs} {p : Path} (h : fs.look p = .notFound) :
+    fs.isDir p = false ∧ fs.inoOf p = none := by
+  unfold Fs.look at h
+  split at h
+  · cases h
+  · split at h
+    · cases h
+    · rename_i h2
+      split at h
+      · cases h
+      · rename_i hn
+        exact ⟨by simpa using h2, hn⟩
+
+theorem look_file_inoOf {fs : Fs} {p : Path} {i : Nat} (h : fs.look p = .file i) : fs.inoOf p = some i :=
+  (look_file h).2.2
+
+/-- `look` depends only on the names and the directories -/
+theorem look_congr {fs fs' : Fs} (hf : fs'.files = fs.files) (hd : fs'.dirs = fs.dirs) (p : Path) :
+    fs'.look p = fs.look p := by
+  unfold Fs.look Fs.inoOf Fs.isDir
+  rw [hf, hd]
+
+/-! ### proper prefixes -/
+
+theorem mem_properPrefixes {p q : Path} : q ∈ Fs.properPrefixes p ↔ ∃ n, 1 ≤ n ∧ n < p.length ∧ q = p.take n := by
+  unfold Fs.properPrefixes
+  simp only [List.mem_map, List.mem_drop_iff_getElem, List.getElem_range]
+  constructor
+  · rintro ⟨n, ⟨k, hk, rfl⟩, rfl⟩
+    simp at hk
+    exact ⟨1 + k, by omega, by omega, rfl⟩
+  · rintro ⟨n, h1, h2, rfl⟩
+    refine ⟨n, ⟨n - 1, by simp; omega, by omega⟩, rfl⟩
+
+theorem properPrefix_ne {p q : Path} (h : q ∈ Fs.properPrefixes p) : q ≠ p := by
+  obtain ⟨n, _, h2, rfl⟩ := mem_properPrefixes.1 h
+  intro e
+  have := congrArg List.length e
+  simp at this
+  omega
+
+/-- the proper prefixes of `p` are among the directories `create_dir_all(parent(p))` makes -/
+theorem properPrefixes_sub_dropLast {p q : Path} (h : q ∈ Fs.properPrefixes p) :
+    q ∈ Fs.properPrefixes p.dropLast ++ [p.dropLast] := by
+  obtain ⟨n, h1, h2, rfl⟩ := mem_properPrefixes.1 h
+  rw [List.mem_append, List.mem_singleton]
+  by_cases hn : n = p.length - 1
+  · right
+    rw [List.dropLast_eq_take, hn]
+  · left
+    refine mem_properPrefixes.2 ⟨n, h1, by simp; omega, ?_⟩
+    rw [List.dropLast_eq_take, List.take_take, Nat.min_eq_left (by omega)]
+
+/-! ### `create_dir_all` -/
+
+theorem isDir_cons (fs : Fs) (q p : Path) :
+    ({ fs with dirs := q :: fs.dirs } : Fs).isDir p = (fs.isDir p || p == q) := by
+  unfold Fs.isDir
+  simp only [List.contains_cons]
+  cases p.isEmpty <;> cases (p == q) <;> cases fs.dirs.contains p <;> rfl
+
+theorem mkdirsAux_spec (l : List Path) : ∀ (fs fs' : Fs), Fs.mkdirsAux fs l = some fs' →
+    fs'.files = fs.files ∧ fs'.data = fs.data ∧ fs'.next = fs.next ∧
+    (∀ q, fs.isDir q = true → fs'.isDir q = true) ∧
+    (∀ q, fs'.isDir q = true → fs.isDir q = true ∨ fs.inoOf q = none) ∧
+    (∀ q ∈ l, fs'.isDir q = true) := by
+  induction l with
+  | nil =>
+    intro fs fs' h
+    simp only [Fs.mkdirsAux, Option.some.injEq] at h
+    subst h
+    exact ⟨rfl, rfl, rfl, fun _ h => h, fun _ h => Or.inl h, fun _ h => by cases h⟩
+  | cons q rest ih =>
+    intro fs fs' h
+    simp only [Fs.mkdirsAux] at h
+    split at h
+    · rename_i hq
+      obtain ⟨h1, h2, h3, h4, h5, h6⟩ := ih _ _ h
+      refine ⟨h1, h2, h3, h4, h5, ?_⟩
+      intro x hx
+      rcases List.mem_cons.1 hx with rfl | hx
+      · exact h4 _ hq
+      · exact h6 x hx
+    · rename_i hq
+      split at h
+      · cases h
+      · rename_i hino
+        have hino : fs.inoOf q = none := by
+          cases hh : fs.inoOf q with
+          | none => rfl
+          | some _ => rw [hh] at hino; simp at hino
+        obtain ⟨h1, h2, h3, h4, h5, h6⟩ := ih _ _ h
+        refine ⟨h1, h2, h3, ?_, ?_, ?_⟩
+        · intro x hx
+          apply h4
+          rw [isDir_cons, hx]; rfl
+        · intro x hx
+          rcases h5 x hx with h | h
+          · rw [isDir_cons, Bool.or_eq_true] at h
+            rcases h with h | h
+            · exact Or.inl h
+            · right
+              have : x = q := by simpa using h
+              rw [this]; exact hino
+          · exact Or.inr h
+        · intro x hx
+          rcases List.mem_cons.1 hx with rfl | hx
+          · apply h4
+            rw [isDir_cons]; simp
+          · exact h6 x hx
+
+theorem mkdirs_spec (fs : Fs) (d : Path) :
+    (fs.mkdirs d).1.files = fs.files ∧ (fs.mkdirs d).1.data = fs.data ∧ (fs.mkdirs d).1.next = fs.next ∧
+    (∀ q, fs.isDir q = true → (fs.mkdirs d).1.isDir q = true) ∧
+    (∀ q, (fs.mkdirs d).1.isDir q = true → fs.isDir q = true ∨ fs.inoOf q = none) ∧
+    ((fs.mkdirs d).2 = true → ∀ q ∈ Fs.properPrefixes d ++ [d], (fs.mkdirs d).1.isDir q = true) := by
+  unfold Fs.mkdirs
+  split
+  · rename_i fs' h
+    obtain ⟨h1, h2, h3, h4, h5, h6⟩ := mkdirsAux_spec _ _ _ h
+    exact ⟨h1, h2, h3, h4, h5, fun _ => h6⟩
+  · exact ⟨rfl, rfl, rfl, fun _ h => h, fun _ h => Or.inl h, fun h => by cases h⟩
+
+theorem inoOf_congr {fs fs' : Fs} (hf : fs'.files = fs.files) (p : Path) : fs'.inoOf p = fs.inoOf p := by
+  unfold Fs.inoOf; rw [hf]
+
+theorem content_congr {fs fs' : Fs} (hf : fs'.data = fs.data) (i : Nat) : fs'.content i = fs.content i := by
+  unfold Fs.content; rw [hf]
+
+/-! ### creating a file -/
+
+/-- what `openCreate` does when the name is free and the parent is a directory -/
+def addFile (fs : Fs) (t : Path) : Fs :=
+  { fs with files := (t, fs.next) :: fs.files, data := (fs.next, []) :: fs.data, next := fs.next + 1 }
+
+theorem openCreate_cases (fs : Fs) (t : Path) :
+    (fs.openCreate t).1 = fs ∨ (fs.look t = .notFound ∧ (fs.openCreate t).1 = addFile fs t) := by
+  unfold Fs.openCreate
+  split
+  · left; rfl
+  · split
+    · right; exact ⟨by assumption, rfl⟩
+    · left; rfl
+  · left; rfl
+
+theorem inoOf_addFile (fs : Fs) (t p : Path) :
+    (addFile fs t).inoOf p = if t = p then some fs.next else fs.inoOf p := by
+  unfold addFile Fs.inoOf
+  simp only [List.find?_cons]
+  by_cases h : t = p
+  · simp [h]
+  · have : (t == p) = false := by simpa using h
+    simp [this, h]
+
+theorem isDir_addFile (fs : Fs) (t p : Path) : (addFile fs t).isDir p = fs.isDir p := rfl
+
+theorem content_addFile (fs : Fs) (t : Path) (i : Nat) (h : i ≠ fs.next) :
+    (addFile fs t).content i = fs.content i := by
+  unfold addFile Fs.content
+  have : (fs.next == i) = false := by simpa using fun e => h e.symm
+  simp only [List.find?_cons, this]
+
+/-! ### local changes -/
+
+/-- `fs'` arises from the well-formed tree `fs` by creating directories, creating files named in `T`, and
+    rewriting the content of files named in `T` -/
+structure Loc (T : Path → Prop) (fs fs' : Fs) : Prop where
+  next_le : fs.next ≤ fs'.next
+  ino_pres : ∀ p i, fs.inoOf p = some i → fs'.inoOf p = some i
+  ino_new : ∀ p i, fs'.inoOf p = some i → fs.inoOf p = some i ∨ (T p ∧ fs.next ≤ i)
+  wf : WF fs → WF fs'
+  look_pres : WF fs → ∀ p i, fs.look p = .file i → fs'.look p = .file i
+  content : ∀ i, i < fs.next → (∀ t, T t → fs.inoOf t ≠ some i) → fs'.content i = fs.content i
+
+theorem Loc.refl (T : Path → Prop) (fs : Fs) : Loc T fs fs :=
+  ⟨Nat.le_refl _, fun _ _ h => h, fun _ _ h => Or.inl h, fun h => h, fun _ _ _ h => h, fun _ _ _ => rfl⟩
+
+theorem Loc.trans {T : Path → Prop} {a b c : Fs} (h1 : Loc T a b) (h2 : Loc T b c) : Loc T a c := by
+  refine ⟨Nat.le_trans h1.next_le h2.next_le, fun p i h => h2.ino_pres p i (h1.ino_pres p i h), ?_,
+    fun h => h2.wf (h1.wf h), fun hwf p i h => h2.look_pres (h1.wf hwf) p i (h1.look_pres hwf p i h), ?_⟩
+  · intro p i h
+    rcases h2.ino_new p i h with h | ⟨ht, hle⟩
+    · exact h1.ino_new p i h
+    · exact Or.inr ⟨ht, Nat.le_trans h1.next_le hle⟩
+  · intro i hi hT
+    rw [h2.content i (Nat.lt_of_lt_of_le hi h1.next_le) ?_, h1.content i hi hT]
+    intro t ht h
+    rcases h1.ino_new t i h with h | ⟨_, hle⟩
+    · exact hT t ht h
+    · omega
+
+theorem Loc.mono {T T' : Path → Prop} {a b : Fs} (h : Loc T a b) (hTT : ∀ p, T p → T' p) : Loc T' a b := by
+  refine ⟨h.next_le, h.ino_pres, ?_, h.wf, h.look_pres, ?_⟩
+  · intro p i hp
+    rcases h.ino_new p i hp with h | ⟨ht, hle⟩
+    · exact Or.inl h
+    · exact Or.inr ⟨hTT p ht, hle⟩
+  · intro i hi hT
+    exact h.content i hi (fun t ht => hT t (hTT t ht))
+
+theorem Loc.of_eq {T : Path → Prop} {a b : Fs} (h : b = a) : Loc T a b := by
+  subst h; exact Loc.refl T _
+
+theorem loc_mkdirs (T : Path → Prop) (fs : Fs) (d : Path) : Loc T fs (fs.mkdirs d).1 := by
+  obtain ⟨h1, h2, h3, h4, h5, _⟩ := mkdirs_spec fs d
+  have hino : ∀ p, (fs.mkdirs d).1.inoOf p = fs.inoOf p := inoOf_congr h1
+  refine ⟨by rw [h3]; exact Nat.le_refl _, fun p i h => by rw [hino]; exact h,
+    fun p i h => Or.inl (by rw [← hino]; exact h), ?_, ?_, fun i _ _ => content_congr h2 i⟩
+  · intro ⟨w1, w2, w3, w4⟩
+    refine ⟨by rw [h1, h3]; exact w1, by rw [h1]; exact w2, ?_, ?_⟩
+    · intro p i hp
+      rw [h1] at hp
+      cases hd : (fs.mkdirs d).1.isDir p with
+      | false => rfl
+      | true =>
+        rcases h5 p hd with h | h
+        · rw [w3 p i hp] at h; cases h
+        · exact absurd rfl (inoOf_none h _ hp)
+    · intro p i hp q hq
+      rw [h1] at hp
+      exact h4 q (w4 p i hp q hq)
+  · intro hwf p i hl
+    obtain ⟨l1, l2, l3⟩ := look_file hl
+    apply look_file_of
+    · simp only [hino]; exact l1
+    · cases hd : (fs.mkdirs d).1.isDir p with
+      | false => rfl
+      | true =>
+        rcases h5 p hd with h | h
+        · rw [l2] at h; cases h
+        · rw [l3] at h; cases h
+    · rw [hino]; exact l3
+
+theorem loc_addFile {T : Path → Prop} {fs : Fs} {t : Path} (hT : T t) (hl : fs.look t = .notFound)
+    (hpre : ∀ q ∈ Fs.properPrefixes t, fs.isDir q = true) : Loc T fs (addFile fs t) := by
+  obtain ⟨hnd, hnone⟩ := look_notFound hl
+  refine ⟨Nat.le_succ _, ?_, ?_, ?_, ?_, ?_⟩
+  · intro p i h
+    rw [inoOf_addFile]
+    split
+    · rename_i e; subst e; rw [hnone] at h; cases h
+    · exact h
+  · intro p i h
+    rw [inoOf_addFile] at h
+    split at h
+    · rename_i e; subst e
+      cases h
+      exact Or.inr ⟨hT, Nat.le_refl _⟩
+    · exact Or.inl h
+  · intro ⟨w1, w2, w3, w4⟩
+    refine ⟨?_, ?_, ?_, ?_⟩
+    · intro p i hp
+      show i < fs.next + 1
+      rcases List.mem_cons.1 hp with h | h
+      · cases h; exact Nat.lt_succ_self _
+      · exact Nat.lt_succ_of_lt (w1 p i h)
+    · show ((t, fs.next) :: fs.files |>.map (·.1)).Nodup
+      rw [List.map_cons, List.nodup_cons]
+      refine ⟨?_, w2⟩
+      intro hmem
+      obtain ⟨e, he, het⟩ := List.mem_map.1 hmem
+      exact inoOf_none hnone e he het
+    · intro p i hp
+      rw [isDir_addFile]
+      rcases List.mem_cons.1 hp with h | h
+      · cases h; exact hnd
+      · exact w3 p i h
+    · intro p i hp q hq
+      rw [isDir_addFile]
+      rcases List.mem_cons.1 hp with h | h
+      · cases h; exact hpre q hq
+      · exact w4 p i h q hq
+  · intro hwf p i hlp
+    obtain ⟨l1, l2, l3⟩ := look_file hlp
+    have hne : t ≠ p := by
+      intro e; subst e; rw [hnone] at l3; cases l3
+    apply look_file_of
+    · rw [List.any_eq_false] at l1 ⊢
+      intro q hq
+      rw [inoOf_addFile]
+      split
+      · rename_i e; subst e
+        -- the new file would be a proper prefix of an existing file: but then it is a directory
+        have := hwf.2.2.2 p i (inoOf_mem l3) t hq
+        rw [hnd] at this; cases this
+      · exact l1 q hq
+    · rw [isDir_addFile]; exact l2
+    · rw [inoOf_addFile, if_neg hne]; exact l3
+  · intro i hi _
+    exact content_addFile fs t i (Nat.ne_of_lt hi)
+
+theorem loc_openCreate {T : Path → Prop} {fs : Fs} {t : Path} (hT : T t)
+    (hpre : ∀ q ∈ Fs.properPrefixes t, fs.isDir q = true) : Loc T fs (fs.openCreate t).1 := by
+  rcases openCreate_cases fs t with h | ⟨hl, h⟩
+  · exact Loc.of_eq h
+  · rw [h]; exact loc_addFile hT hl hpre
+
+theorem loc_setData {T : Path → Prop} {fs : Fs} {t : Path} {i : Nat} (hT : T t) (hi : fs.inoOf t = some i)
+    (bs : Bytes) : Loc T fs (fs.setData i bs) := by
+  refine ⟨Nat.le_refl _, fun _ _ h => h, fun _ _ h => Or.inl h, fun h => h, fun _ _ _ h => h, ?_⟩
+  intro j _ hj
+  apply RB.Fs.content_setData_other
+  intro e; subst e
+  exact hj t hT hi
+
+theorem loc_setLen {T : Path → Prop} {fs : Fs} {t : Path} {i : Nat} (hT : T t) (hi : fs.inoOf t = some i)
+    (n : Nat) : Loc T fs (fs.setLen i n) := loc_setData hT hi _
+
+theorem loc_writeAt {T : Path → Prop} {fs : Fs} {t : Path} {i : Nat} (hT : T t) (hi : fs.inoOf t = some i)
+    (off : Nat) (d : Bytes) : Loc T fs (fs.writeAt i off d) := loc_setData hT hi _
+
+/-- lifting to one logged operation (which may also fail at a fault point and leave the tree alone) -/
+theorem loc_op {T : Path → Prop} {st st1 : St} {ok : Bool} {k : OpKind} {p : Path} {n : Fs → Fs × Bool}
+    (h : st.op k p n = (st1, ok)) (hn : Loc T st.fs (n st.fs).1) : Loc T st.fs st1.fs := by
+  rcases RD.St.op_fs h with ⟨e, _⟩ | ⟨e, _⟩
+  · exact Loc.of_eq e
+  · rw [e]; exact hn
+
+/-- a successful operation was not a fault: its natural effect happened and said yes -/
+theorem op_ok {st st1 : St} {k : OpKind} {p : Path} {n : Fs → Fs × Bool}
+    (h : st.op k p n = (st1, true)) : st1.fs = (n st.fs).1 ∧ (n st.fs).2 = true := by
+  rcases RD.St.op_fs h with ⟨_, e⟩ | ⟨e1, e2⟩
+  · cases e
+  · exact ⟨e1, e2.symm⟩
 
 end TB.RunF
